@@ -305,6 +305,21 @@ func c18Run(t *tr.Writer, id int, c c18Case) {
 			mu.Unlock()
 			client.SetURI(us...)
 			t.Emit(tr.Rec{"ev": "servers", "n": op.N})
+		case "grow":
+			// servers are added while calls may be in flight (least-active only: its counters must survive)
+			if c.Algo != "la" {
+				continue
+			}
+			mu.Lock()
+			cur := len(order)
+			var us []string
+			for i := 0; i < cur+op.N; i++ {
+				us = append(us, c18URL(i))
+				order[c18URL(i)] = i + 1
+			}
+			mu.Unlock()
+			client.SetURI(us...)
+			t.Emit(tr.Rec{"ev": "grow", "n": cur + op.N})
 		case "quiesce":
 			mu.Lock()
 			busy := len(holds) > 0
@@ -434,7 +449,11 @@ func runC18(a Args) tr.Summary {
 			case x < 19:
 				ops = append(ops, c18Op{Op: "quiesce"})
 			default:
-				ops = append(ops, c18Op{Op: "servers", N: 1 + rng.Intn(5)})
+				if algo == "la" && rng.Intn(2) == 0 {
+					ops = append(ops, c18Op{Op: "grow", N: 1 + rng.Intn(2)})
+				} else {
+					ops = append(ops, c18Op{Op: "servers", N: 1 + rng.Intn(5)})
+				}
 			}
 		}
 		run(c18Case{Algo: algo, Weights: w, Ops: ops}, true)
